@@ -73,8 +73,8 @@ def gen_sequence(rng, cands, spec):
 
 
 def execute_shim(events, rng):
-    """tier A: the plugin on the ctypes gdb module"""
-    gs = gdbsim.GdbSession()
+    """tier A: the plugin on the ctypes gdb module (session configuration varied: --verbose, --supress)"""
+    gs = gdbsim.GdbSession(verbose=rng.random() < 0.3, show_unprocessed=rng.random() < 0.7)
     obs = []
     slot_key = {}
     for ev in events:
@@ -129,7 +129,7 @@ def execute_gdb(events, rng):
             else:
                 k = [e['key'] for e in events[:events.index(ev)] if e['type'] == 'msg' and e['slot'] == ev['slot']][-1]
                 seqs.append(script.destroy(conn_of_key[k]))
-    r = gdbreal.run(script, argv_opts=['-C'])
+    r = gdbreal.run(script, argv_opts=['-C'] + (['--verbose'] if rng.random() < 0.3 else []))
     if not any(x['t'] == 'loaded' for x in r['records']):
         raise RuntimeError('the plugin did not load inside gdb: ' + r['stderr'][-300:])
     by_seq = {}
